@@ -346,6 +346,47 @@ def rule_lookup_delegation(ctx, prog, rule="R13"):
                 ok = okc and is_edges(a[2]) and is_edges(b_[2])
                 detail = "Range{edges[left], edges[right]} from the one pair returned by self.edges.indices_of(value)" if ok else \
                     "range built from `%s`" % fmt(se)[:100]
+    if not ok:
+        # second spelling: self.index_of(value).map(|left| self.index(left)) – the left index (checked above to be the left component
+        # of Edges::indices_of) fed to Bins::index, which must be Range{edges[i], edges[i+1]}; the right component of indices_of is
+        # left+1 on every Some-path of the decision tree (R20, always run together with this rule)
+        r = strip(br.return_expr())
+        if isinstance(r, tuple) and r[0] == "call" and r[1] == "map" and len(r[3]) == 2:
+            src, clo = strip(r[3][0]), strip(r[3][1])
+            if isinstance(src, tuple) and src[0] == "call" and src[2] == bi.key and strip(src[3][0])[:2] == ("param", 1) and \
+                    strip(src[3][1])[:2] == ("param", 2) and isinstance(clo, tuple) and clo[:2] == ("agg", "closure"):
+                cb = prog.bodies[clo[2]]
+                cr = strip(cb.return_expr())
+                bidx = prog.find("histogram::bins::Bins::<A>::index")
+                if isinstance(cr, tuple) and cr[0] == "call" and cr[2] == bidx.key and len(cr[3]) == 2:
+                    rb, recv = up(prog, cb, cr[3][0])
+                    recv_ok = strip(recv)[:2] == ("param", 1) and not rb.is_closure
+                    arg_ok = strip(cr[3][1])[:2] == ("param", 2)
+                    # Bins::index = Range{clone(edges[i]), clone(edges[i+1])}
+                    rg = [(bb, si, st_) for bb, si, st_ in bidx.assigns() if st_["rv"]["k"] == "agg" and st_["rv"].get("adt") == "std::ops::Range"]
+                    idx_ok = False
+                    if len(rg) == 1:
+                        bb, si, st_ = rg[0]
+                        fs = [strip(bidx.operand_expr(f, bb, si)) for f in st_["rv"]["fields"]]
+
+                        def edge_at(e):
+                            if isinstance(e, tuple) and e[0] == "call" and e[1] == "clone":
+                                e = strip(e[3][0])
+                            if isinstance(e, tuple) and e[0] == "call" and e[1] == "index" and len(e[3]) == 2 and \
+                                    strip(e[3][0]) == ("field", ("param", 1, "self"), "edges"):
+                                return strip(e[3][1])
+                            return None
+                        i0, i1 = edge_at(fs[0]), edge_at(fs[1])
+
+                        def plus_one(e):
+                            if isinstance(e, tuple) and e[0] == "field" and e[2] == "0":
+                                e = strip(e[1])
+                            return isinstance(e, tuple) and e[0] == "binop" and e[1] in ("Add", "AddWithOverflow", "AddUnchecked") and \
+                                strip(e[2])[:2] == ("param", 2) and strip(e[3]) == ("const", "usize", 1)
+                        idx_ok = i0 is not None and i0[:2] == ("param", 2) and i1 is not None and plus_one(i1)
+                    ok = recv_ok and arg_ok and idx_ok
+                    detail = "= self.index_of(value).map(|left| self.index(left)) with Bins::index(i) = Range{edges[i], edges[i+1]} and right = left+1 (R20)" if ok else \
+                        "range_of via index_of/index: receiver is self=%s, argument is the left index=%s, Bins::index is Range{edges[i], edges[i+1]}=%s" % (recv_ok, arg_ok, idx_ok)
     ctx.ob(rule, "Bins::range_of/delegates", ok, br.where(), detail, what="accessor does not use the lookup primitive")
     gs = prog.find("histogram::grid::Grid::<A>::shape")
     r = strip(gs.return_expr())
